@@ -251,7 +251,7 @@ pub open spec fn body_uses(b: Seq<Stmt>, n: int, file: PV, src: Seq<char>, li: S
 /// the parser, taken as PRECONDITION here.
 pub open spec fn lits_ok(ps: Seq<Lit>, li: Seq<usize>) -> bool { forall|i: int| 0 <= i < ps.len() ==> vcol(li, r_end((#[trigger] ps[i]).1)) >= 1 }
 pub open spec fn decos_ok(ds: Seq<Expr>, which: int, li: Seq<usize>) -> bool {
-    forall|j: int| 0 <= j < ds.len() ==> lits_ok(deco_lits(#[trigger] ds[j], which), li)
+    forall|j: int| 0 <= j < ds.len() ==> lits_ok(#[trigger] deco_lits(ds[j], which), li)
 }
 pub open spec fn visit_pre(s: Stmt, li: Seq<usize>) -> bool
     decreases s, 0int
